@@ -46,12 +46,15 @@ func runParserCases(pw *parserWorld, reqs []*parsersim.Request, timeout time.Dur
 
 // parserReplay is the replay file body of parser-world violations.
 type parserReplay struct {
-	Grammar  *gen.Grammar       `json:"grammar"`
-	Text     string             `json:"grammar_text"`
-	Flags    []string           `json:"flags"`
-	Request  *parsersim.Request `json:"request"`
-	Race     bool               `json:"race,omitempty"`
-	Expected string             `json:"expected_class"`
+	Grammar *gen.Grammar       `json:"grammar"`
+	Text    string             `json:"grammar_text"`
+	Flags   []string           `json:"flags"`
+	Request *parsersim.Request `json:"request"`
+	Race    bool               `json:"race,omitempty"`
+	// FreshSolo: the violation is a difference between the concurrent run and the
+	// calls run alone in another, fresh process.
+	FreshSolo bool   `json:"fresh_solo,omitempty"`
+	Expected  string `json:"expected_class"`
 }
 
 // drawPool draws a pool behaviour; most runs keep the pool ordinary.
